@@ -86,6 +86,12 @@ var c01Probes = []c01Probe{
 			c.OutputOptions.SkipPrune = true
 			c.Compatibility.DisableFlattenAdditionalProperties = true
 		}},
+	{Name: "P21_property_named_item_in_array_items_without_flattening", Targets: []string{"models"},
+		Doc: op(`"paths":{},"components":{"schemas":{"time":{"type":"array","items":{"type":"object","additionalProperties":{"type":"string"},"properties":{"item":{"type":"object","additionalProperties":{"type":"string"}}}}}}}`),
+		Tune: func(c *codegen.Configuration) {
+			c.OutputOptions.SkipPrune = true
+			c.Compatibility.DisableFlattenAdditionalProperties = true
+		}},
 	{Name: "P19_skip_fmt_output_keeps_every_import", Targets: []string{"models"},
 		Doc: op(`"paths":{},"components":{"schemas":{"S":{"type":"string"}}}`),
 		Tune: func(c *codegen.Configuration) {
